@@ -4,5 +4,6 @@ import NflowsModel.Properties.C01E
 import NflowsModel.Properties.C01J
 import NflowsModel.Properties.C01L
 import NflowsModel.Properties.C01N
+import NflowsModel.Properties.C01V
 
 #audit_namespace Properties.C01
